@@ -164,7 +164,8 @@ impl<T: MomTropFloat> SquareMatrix<T> {
         (0..self.dim).fold(const_builder.one(), |acc, i| acc * &q[(i, i)]);
         let determinant = det_q.ref_mul(&det_q);
 
-        if det_q == const_builder.zero() {
+        // the square of a tiny but non-zero pivot product can underflow to exactly zero
+        if det_q == const_builder.zero() || determinant == const_builder.zero() {
             return Err(MatrixError::ZeroDet);
         }
 
